@@ -269,6 +269,43 @@ func runC19(w *core.WorkerCtx, idx int) *core.CaseResult {
 		}
 		return false, ""
 	}
+	// aloneAgain repeats the victim alone and tells how the outcomes relate to the reference taken
+	// BEFORE the other replica was ever coordinated in this case: "same" (all equal to it), "shifted"
+	// (all equal to each other but not to it: an outcome with a probability of a few percent cannot
+	// show up n times out of n, so something the other replica left behind changed the victim's
+	// behaviour) or "mixed" (the victim's own outcome is not unique: the case decides nothing).
+	var shiftedTrace []string
+	aloneAgain := func(from, n int) string {
+		same, first, uniform := 0, "", true
+		for k := from; k < from+n; k++ {
+			o := Exec(cv, seedOf(100+k))
+			res.Execs++
+			if o.Panic != "" {
+				return "mixed"
+			}
+			tr := traceOf(o, 0, nC)
+			t := strings.Join(tr, "\n")
+			if t == strings.Join(ref, "\n") {
+				same++
+			}
+			if k == from {
+				first, shiftedTrace = t, tr
+			} else if t != first {
+				uniform = false
+			}
+		}
+		switch {
+		case same == n:
+			return "same"
+		case same == 0 && uniform:
+			return "shifted"
+		}
+		return "mixed"
+	}
+	leak := func(order string) {
+		res.Violate("C19/state-leaks-between-replicas", "after the other replica had been coordinated (%s) the replica ALONE behaves differently than before, identically in 100 of 100 repetitions.\n alone before: %s\n alone after:  %s", order, strings.Join(ref, " || "), strings.Join(shiftedTrace, " || "))
+		res.Witness = map[string]interface{}{"scenario": s, "order": order, "alone_before": ref, "alone_after": shiftedTrace}
+	}
 	// map iteration starts at one of 8 offsets; 30 repetitions miss an alternative outcome with probability < 2 %,
 	// and a mismatch is only reported after 100 further repetitions of the victim alone (see below)
 	if diff, why := aloneDiffers(0, 30); diff {
@@ -324,11 +361,15 @@ func runC19(w *core.WorkerCtx, idx int) *core.CaseResult {
 			t := traceOf(o, vrep, nC)
 			for cyc := 0; cyc < nC; cyc++ {
 				if t[cyc] != ref[cyc] {
-					if diff, _ := aloneDiffers(1000, 100); diff {
+					switch aloneAgain(1000, 100) {
+					case "mixed":
 						// the victim's own outcome is not unique after all: the case decides nothing
 						res.AddStat("cases_discarded_order_dependent_late", 1)
 						res.Nontrivial = false
 						res.Viol = nil
+						return res
+					case "shifted":
+						leak(order)
 						return res
 					}
 					kind := "requests-differ"
@@ -345,6 +386,11 @@ func runC19(w *core.WorkerCtx, idx int) *core.CaseResult {
 			res.AddStat("cycles_compared", int64(nC))
 		}
 	}
+	// the victim alone once more, after the other replica has been coordinated next to it
+	if len(res.Viol) == 0 && aloneAgain(2000, 3) == "shifted" && aloneAgain(2100, 100) == "shifted" {
+		leak("VH,HV")
+	}
+	res.AddStat("alone_again_after_the_other_replica", 3)
 	res.Viol = dedupe(res.Viol)
 	if idx < 1 || idx == c19NDirected {
 		res.Sample = map[string]interface{}{"scenario": s, "victim_alone_trace": ref}
